@@ -152,10 +152,46 @@ class Engine(_Base, ExprMixin, CallMixin, StmtMixin):
         return out
 
     def do_yield(self, st, e):
-        h = self.reg.externals.get('$yield')
-        if h is None:
-            self.unsupported(e, 'yield')
-        return h(self, st, e)
+        """`x = yield v` in a generator driven by send(): a scheduling point like await.  The value sent in is an
+        arbitrary value of the type declared in contract.yields[k]['result']."""
+        c = self.cur_contract
+        if st.depth != 0 or c is None or not c.yields:
+            self.unsupported(e, 'yield outside a generator under contract')
+        ys = [m for m in ast.walk(self.cur_info.node) if isinstance(m, ast.Yield)]
+        ys.sort(key=lambda m: (m.lineno, m.col_offset))
+        k = [i for i, m in enumerate(ys) if m is e][0]
+        spec = c.yields.get(k)
+        if spec is None:
+            self.unsupported(e, 'yield #%d has no entry in the contract (yields={...})' % k)
+        out = []
+        results = self.eval(st, e.value) if e.value is not None else [(st, VNone())]
+        for s, v in results:
+            if s.exc is not None:
+                out.append((s, None))
+                continue
+            s.log.append(('yielded', k, v))
+            if spec.get('check') is not None and not self.collect_only:
+                for nm, g in spec['check'](self, s, self.entry_state, self.entry_env):
+                    self.check(s, g, '%s/yield%d[%s]' % (c.target, k, nm))
+            owned = []
+            for text in spec.get('owned', []):
+                ov = self.spec_val(s, text)
+                ov = ov.some() if isinstance(ov, VOpt) else ov
+                owned.append(ov.t)
+            before = dict(s.heap)
+            for key in list(s.heap.keys()):
+                self.heap_set(s, key, z3.Const(fresh_name('Hy:' + ':'.join(map(str, key))), s.heap[key].sort()))
+                if key[0] == 'f':
+                    for o in owned:
+                        s.heap[key] = z3.Store(s.heap[key], o, z3.Select(before[key], o))
+            a = z3.Int(fresh_name('alloc'))
+            s.assume(a >= s.alloc)
+            s.alloc = a
+            rv = self.fresh_val(s, spec['result'], 'sent')
+            for cl in spec.get('assume', []):
+                s.assume(self.eval_clause(s, cl, dict(self.visible_env(s), result=rv), self.cur_info, old_st=self.entry_state))
+            out.append((s, rv))
+        return out
 
     # --------------------------------------------------------------- driver
     def find_func(self, key):
